@@ -7,6 +7,7 @@ import (
 	"errors"
 	"fmt"
 	"math/big"
+	"reflect"
 	"sort"
 	"strings"
 	"sync"
@@ -175,6 +176,9 @@ func (h *HostSvc) handle(ctx context.Context, method, nodeID string) error {
 	h.mu.Unlock()
 	h.w.S.Yield("hostsvc", h.a.Name+" "+method+" "+short10(nodeID))
 	var err error
+	if pol != PolicyAck {
+		h.w.S.Fault("host_" + pol.String() + "_on_reverse_call")
+	}
 	switch pol {
 	case PolicyError:
 		err = errors.New("host refuses")
@@ -658,7 +662,7 @@ func (w *World) Digest(extraIDs ...string) string {
 	}
 	st, _ := w.Inner.Stats()
 	fmt.Fprintf(&b, "stats: hosts=%d clients=%d credit=%s trials=%d\n", st.NumTotalHosts, st.NumTotalClients, st.TotalCredit.String(), st.NumTrialBalances)
-	fmt.Fprintf(&b, "remotes=%d\n", w.Pool.NumRemotes())
+	fmt.Fprintf(&b, "remotes=%d registry=%v\n", w.Pool.NumRemotes(), w.Registry())
 	for _, c := range w.Conns {
 		c.Host.mu.Lock()
 		fmt.Fprintf(&b, "instr %s: %d\n", c.Name, len(c.Host.Got))
@@ -668,6 +672,34 @@ func (w *World) Digest(extraIDs ...string) string {
 	fmt.Fprintf(&b, "settlements=%d attempts=%d\n", len(w.Set.Paid), w.Set.Attempts)
 	w.Set.mu.Unlock()
 	return b.String()
+}
+
+// Registry reads the pool's host registry (unexported map, read-only through reflection at a
+// quiescent point): host name -> name of the connection the pool would instruct it on.
+func (w *World) Registry() []string {
+	var out []string
+	v := reflect.ValueOf(w.Pool).Elem().FieldByName("remoteHosts")
+	if !v.IsValid() || v.Kind() != reflect.Map {
+		return []string{"<registry not readable>"}
+	}
+	it := v.MapRange()
+	for it.Next() {
+		id := it.Key().String()
+		conn := "?"
+		if e := it.Value(); e.Kind() == reflect.Interface && !e.IsNil() {
+			ptr := e.Elem().Pointer()
+			w.mu.Lock()
+			for _, c := range w.Conns {
+				if reflect.ValueOf(c.PoolSide).Pointer() == ptr {
+					conn = c.Name
+				}
+			}
+			w.mu.Unlock()
+		}
+		out = append(out, w.N(id)+"@"+conn)
+	}
+	sort.Strings(out)
+	return out
 }
 
 func shortIDs(ids []string) []string {
